@@ -8,6 +8,8 @@ import (
 	"verif/harness/c05"
 	"verif/harness/c06"
 	"verif/harness/c08"
+	"verif/harness/c09"
+	"verif/harness/c10"
 	"verif/harness/c12"
 	"verif/harness/c15"
 	"verif/harness/c16"
@@ -26,6 +28,11 @@ func init() {
 	reg("c02", "Lockstep", func(a []int64) { c02.Lockstep(int(a[0]), int(a[1])) })
 	reg("c06", "Program", func(a []int64) { c06.Program(a[0], int(a[1]), int(a[2]), int(a[3])) })
 	reg("c08", "Step", func(a []int64) { c08.Step(int(a[0]), int(a[1]), int(a[2])) })
+	reg("c09", "TooSmall", func(a []int64) { c09.TooSmall(int(a[0])) })
+	reg("c09", "RoundTrip", func(a []int64) { c09.RoundTrip(int(a[0])) })
+	reg("c10", "LowHalf", func(a []int64) { c10.LowHalf(int(a[0]), int(a[1])) })
+	reg("c10", "Reads", func(a []int64) { c10.Reads(int(a[0]), int(a[1]), int(a[2]), int(a[3])) })
+	reg("c10", "Writes", func(a []int64) { c10.Writes(int(a[0]), int(a[1]), int(a[2]), int(a[3])) })
 	reg("c12", "StepLemma", func(a []int64) { c12.StepLemma(int(a[0]), int(a[1]), int(a[2])) })
 	reg("c12", "RunUntil", func(a []int64) { c12.RunUntil(int(a[0]), int(a[1]), int(a[2])) })
 	reg("c12", "ResetClearsStop", func(a []int64) { c12.ResetClearsStop(int(a[0])) })
